@@ -165,6 +165,11 @@ def run(ctx):
                 law("PM-noise-rotated-like-signal", p1.noise, PM(optical_signal(x.noise), a, Vpi).signal)
             law("drive-kinds-agree-PM", PM(x, electrical_signal(a), Vpi).signal, p1.signal)
             law("drive-kinds-agree-PM", PM(x, 0.75, Vpi).signal, PM(x, np.full(n, 0.75), Vpi).signal)
+            # the same voltages stored with a complex dtype (e.g. after an FFT-based filter): same modulation
+            law("drive-kinds-agree-PM", PM(x, a.astype(complex), Vpi).signal, p1.signal)
+            law("drive-kinds-agree-PM", PM(x, electrical_signal(a, dtype=complex), Vpi).signal, p1.signal)
+            law("drive-kinds-agree-MZM", MZM(x, u.astype(complex), bias, Vpi, loss, ER, pol).signal, o.signal)
+            law("drive-kinds-agree-MZM", MZM(x, u.astype(np.float32).astype(float), bias, Vpi, loss, ER, pol).signal, MZM(x, u.astype(np.float32), bias, Vpi, loss, ER, pol).signal)
             # nearly constant and very small drives: the phase follows the drive sample by sample
             for dname, dv in (("dither", 4.0 + 2e-5 * rs.randn(n)), ("tiny", 3e-9 * np.where(np.arange(n) % 2 == 0, 1.0, -1.0) + 1e-10 * rs.randn(n)), ("step", np.where(np.arange(n) % 2 == 0, 1.0, 1.0 + 1e-7))):
                 if n < 2:
@@ -175,9 +180,7 @@ def run(ctx):
         # drive length verdicts
         for dev in ("MZM", "PM"):
             for kind in ("ndarray", "electrical_signal"):
-                if n < 2:
-                    continue
-                for badlen in sorted({n + 1, n - 1, 2 * n, n // 2, n // 3, 2} - {n, 0, 1}):
+                for badlen in sorted({n + 1, n - 1, 2 * n, n // 2, n // 3, 2, 5} - {n, 0, 1}):
                     bad = np.zeros(badlen) if kind == "ndarray" else electrical_signal(np.zeros(badlen))
                     try:
                         (MZM if dev == "MZM" else PM)(x, bad)
